@@ -1319,6 +1319,27 @@ def generate(template_path, repo, out_path, canary=False):
             have.add(name)
             extra.append(f"// (R23: const {name} copied from {it['file']} because an extracted function names it)\npub {text.lstrip()}" if not text.lstrip().startswith("pub") else f"// (R23: const {name} copied from {it['file']})\n{text}")
             report.setdefault("auto_consts", []).append(f"{it['file']}::{name}")
+    # R23b: the same for an ASSOCIATED const of the source file named as `Self::NAME` (a magic number given a name inside the impl):
+    # copied as a module-level const, and `Self::NAME` in the extracted text becomes `      NAME` (same length: offsets are preserved)
+    for it in report["items"]:
+        if it.get("kind") not in ("fn", "fragment") or "gen_span" not in it:
+            continue
+        a, b = it["gen_span"]
+        for mm in list(re.finditer(r"\bSelf::([A-Z][A-Z0-9_]{2,})\b(?!\s*(?:::|\())", gen[a:b])):
+            name = mm.group(1)
+            if name not in have:
+                try:
+                    ftxt = open(os.path.join(repo, it["file"])).read()
+                except OSError:
+                    continue
+                cm = re.search(r"\bconst\s+" + name + r"\s*:\s*([^=;]+?)\s*=\s*([^;]+);", ftxt)
+                if not cm:
+                    continue
+                have.add(name)
+                extra.append(f"// (R23b: associated const {name} copied from {it['file']}; `Self::{name}` reads it)\npub const {name}: {cm.group(1)} = {cm.group(2)};")
+                report.setdefault("auto_consts", []).append(f"{it['file']}::Self::{name}")
+            if f"{it['file']}::Self::{name}" in report.get("auto_consts", []):
+                gen = gen[:a + mm.start()] + "      " + name + gen[a + mm.end():]
     if extra:
         k = gen.rfind("} // verus!")
         if k >= 0:
